@@ -172,6 +172,12 @@ func (k Keeper) splitFeesCollected(
 	daoAllocation := sdk.NewDec(k.DAOAllocation(ctx))
 	proposerAllocation := sdk.NewDec(k.ProposerAllocation(ctx))
 
+	// with both allocations at zero there is no ratio to apply (and the division
+	// below would panic in BeginBlock): nothing is allocated to the DAO
+	if daoAllocation.Add(proposerAllocation).IsZero() {
+		return sdk.ZeroInt(), feesCollected
+	}
+
 	// get the new percentages of `dao / (dao + proposer)`
 	daoAllocation = daoAllocation.Quo(daoAllocation.Add(proposerAllocation))
 
